@@ -356,7 +356,7 @@ func orderCase(c *h.Case) {
 		}
 		var vi, k, ci int
 		if n, _ := fmt.Sscanf(ev.Nonce, "V%3dK%5dC%5d", &vi, &k, &ci); n != 3 || vi >= nv || ci != c.Idx%100000 {
-			c.Violation("order-owner-reached-without-credentials", "generation %d of %s read nonce %q that no visitor of this case sent", g, name, ev.Nonce)
+			c.Violation("owner-read-bytes-no-visitor-sent", "generation %d of %s read %q as the first 16 bytes of a work connection: no visitor of this case sent that", g, name, ev.Nonce)
 			continue
 		}
 		if !hams[vi].validFor(g, gens) {
